@@ -25,7 +25,7 @@ PROPERTY = "C04"
 # CODE VARIANT FLAGS — the values that match today's code in /repo
 # SORT_SPANS = 1: markup.render ends with `text.spans = sorted(spans)` (pre-finding F8);
 # SORT_SPANS = 0: repaired code, spans kept in the order their tags were opened.
-SORT_SPANS = 1
+SORT_SPANS = int(os.environ.get("VERIF_C04_SORT_SPANS", "1"))  # 1 = today's code
 
 
 # ------------------------------------------------------------------------------------------------
@@ -68,6 +68,8 @@ def gen_doc(rng, malformed=False):
     ('closetop',) | ('bad', kind, markup_of_tag)"""
     from rich.markup import escape
 
+    # each document draws from a small sub-vocabulary, so the same name is often open twice
+    VOCAB = rng.sample(globals()["VOCAB"], rng.choice([1, 2, 3, 3, 5, 15]))
     toks = []
     parts = []
     open_ = []  # canonical names, in opening order
@@ -77,7 +79,7 @@ def gen_doc(rng, malformed=False):
         if i == bad_at:
             if not open_ or rng.random() < 0.5:
                 # explicit close of something that is not open
-                cands = [v for v in VOCAB if v[0] not in open_]
+                cands = [v for v in globals()["VOCAB"] if v[0] not in open_]
                 v = rng.choice(cands)
                 sp = rng.choice(v[2])
                 p = rng.choice([None, None, "z"])
@@ -110,7 +112,7 @@ def gen_doc(rng, malformed=False):
             # close by name: mostly the innermost (nesting), sometimes an outer one (overlap)
             q = len(open_) - 1 if rng.random() < 0.6 else rng.randrange(len(open_))
             canon = open_[q]
-            v = [x for x in VOCAB if x[0] == canon][0]
+            v = [x for x in globals()["VOCAB"] if x[0] == canon][0]
             sp = rng.choice(v[2])
             p = rng.choice([None, None, None, "ignored"])
             # the most recent tag of that name is the one that closes
@@ -234,6 +236,8 @@ def run(ctx):
     maxlen = 5 if ctx.quick else 7
     full_upto = 5 if ctx.quick else 5
     jobs = [(p, m, 2, SORT_SPANS, ctx.driver_ok, full_upto) for p, m in L.shards(maxlen, 2)]
+    maxlen2 = 4 if ctx.quick else 5
+    jobs += [(p, m, 2, SORT_SPANS, ctx.driver_ok, maxlen2, 2) for p, m in L.shards(maxlen2, 2, L.ALPHA2)]
     nproc = min(16, os.cpu_count() or 1)
     mp = multiprocessing.get_context("fork")
     nstr = 0
@@ -305,7 +309,11 @@ def run(ctx):
         ctx.check(okc, "doc:tags_style_exactly", mk, f"spans {got!r}; expected (opening order, later wins) {want_spans!r}", finding=L.F8_SLUG if is_f8 else None)
         # the same statement observed through real Text.render: the Style each character is drawn with
         if res.plain == plain:
-            real = char_styles(res, console)
+            try:
+                real = char_styles(res, console)
+            except Exception as exc:  # spans Text.render cannot digest: a failure of the property, not of the harness
+                ctx.check(False, "doc:Text.render-effective-style", mk, f"Text.render raised {exc!r} on the spans {got!r}")
+                continue
             want = [Style.combine([console.get_style(st, default=null) for st in a]) if a else null for a in ann]
             ok = len(real) == len(want) and all(r == w for r, w in zip(real, want))
             ctx.check(ok, "doc:Text.render-effective-style", mk, "the style a character is drawn with is not the combination of the tags open there, later-opened winning",
@@ -330,12 +338,12 @@ def run(ctx):
 
     ctx.extra_cov["distinct_nontrivial"] = len(ctx.distinct) + sharded_distinct
     ctx.rule = (
-        "every string of length <= %d over the 12 symbols %r (%d strings; each gives one request per modelled function: "
+        "every string of length <= %d over the 12 symbols %r and every string of length <= %d over the 16 boundary symbols %r (%d strings in all; each gives one request per modelled function: "
         "escape, _parse, render(emoji=False), render(escape(s)), Text.from_markup(emoji=True); beyond length %d only strings in "
         "which RE_TAGS can match go to the model, all go through the direct evaluation) + %d seeded random strings of length 6..24 "
         "+ %d seeded tag-grammar documents (nested/overlapping/implicit closes, 15 tag names x spellings x parameters, escaped leaves, 20%% malformed); "
         "distinct = distinct canonical request lines (exhaustive shards enumerate distinct strings by construction)"
-        % (maxlen, L.ALPHA, nstr, full_upto, n_rand, n_docs)
+        % (maxlen, L.ALPHA, maxlen2, L.ALPHA2, nstr, full_upto, n_rand, n_docs)
     )
 
 
@@ -355,4 +363,26 @@ def replay(ctx, case):
     return not out.fails
 
 
-MANIFEST = {}
+MANIFEST = {
+    "text": "Lean 4 theorems (Props/C04.lean; no bound on string length, number of tags or nesting; `Style.normalize` an arbitrary "
+    "function): scan_partition and scan_bump for the hand-written scanner of RE_TAGS (escape turns k backslashes into 2k+1 and the "
+    "scanner then sees exactly the bumped items); render_escape for EVERY string and both span orders: render(escape(s), emoji=False) "
+    "= (s minus the four control codes Text strips, no spans), never raising; scan_append / escape_embedded_events under the "
+    "statement's side condition (selfContained_iff states it in the statement's words); a refinement proof that the render loop "
+    "(offset stack + span slots) computes a three-line reference semantics (characters annotated with the tags open there, in opening "
+    "order): tags_style_exactly_partial for every markup string, tags_style_exactly_doc_partial for documents of the tag grammar, "
+    "render_escape_embedded_partial, error_iff_nothing_to_close_partial (both span orders). The `_partial` theorems assume emoji=False "
+    "(with emoji on, text chunks pass through _emoji_replace one by one: not proved) and, for the style theorems, the repaired span "
+    "order; old_tags_style_exactly* prove by `decide` that today's `sorted(spans)` violates the precedence at `[b][a]x` (finding F8, "
+    "pending_fixes/C04-markup-span-order.diff). Tie: ~1.4M model-vs-rich comparisons per quick run (every string <= 5 over the 12-symbol "
+    "alphabet and <= 4 over 16 class-boundary symbols through escape, _parse, render, Text.from_markup with emoji on, plus random "
+    "strings and 7000 tag-grammar documents), and the theorems' executable statements evaluated on rich's own output against an "
+    "independent reference interpreter, and on real Text.render for the documents.",
+    "note": "Trusted: Lean kernel; axioms propext/Classical.choice/Quot.sound; the correspondence harness; regex leftmost/greedy/lazy "
+    "semantics for three patterns is modelled by hand scanners and tied only by the (exhaustive-to-length-5/7) correspondence. "
+    "Parameters, not verified: Style.normalize (recorded from the real call and replayed by the model; its contract is checked by the "
+    "oracle on a 15-name vocabulary), the EMOJI table (data handed to the model per request), str.isspace (compared on code points). "
+    "Text._length of the early-exit path is not observed (F1 belongs to C05). The emoji=True path is covered by correspondence and "
+    "direct evaluation, not by a theorem.",
+    "design_ref": "DESIGN.md section 7, C04; section 8, F8",
+}
